@@ -75,7 +75,10 @@ ASSUMPTIONS = ["start points lie inside [xmin, xmax]; xmax - xmin > 0 for every 
                "problems are strictly feasible (Slater point known by construction) and scaled so that Lagrange multipliers "
                "stay far below the penalty c = 1000 of the elastic variables",
                "objective values stay >= 1 (the loop divides by |f|)",
-               "albefa in [0.05, 0.4]: with albefa = 0 the interval would touch the asymptote by definition"]
+               "albefa in [0.05, 0.4]: with albefa = 0 the interval would touch the asymptote by definition",
+               "liveness is judged only for asyincr <= 1.2 and asydecr <= 0.7 (defaults and more conservative), after "
+               "20 + log(0.01)/log(asydecr) iterations with enough travel, or when the loop stopped by its step criterion; "
+               "the invariants are judged for every parameter choice"]
 NOT_EXERCISED = ["fault kinds: none apply (no I/O, no solver fallback, no randomness inside minimize_mma)",
                  "non-convex problems, a != 0 (min-max formulation), user supplied c vector"]
 
@@ -811,6 +814,14 @@ def _liveness(case, pb, res, snaps, subs, probe, skip, margin, viol, out_txt):
     # iteration): 20 iterations + the time for the asymptote offset to shrink 100-fold, and enough travel to cross the box twice.
     need = 20 + int(np.ceil(np.log(0.01) / np.log(float(case["asydecr"]))))
     travel = float(np.min(mv)) * (nit - 1)
+    if case["asyincr"] > 1.2 + 1e-12 or case["asydecr"] > 0.7 + 1e-12:
+        # plain MMA (no GCMMA inner loop) is not globally convergent: with aggressive widening (asyincr = 1.5) or weak
+        # narrowing (asydecr = 0.9) the unchanged tree cycles for hundreds of iterations on some convex problems
+        # (calibration: 3 of 108 runs with asyincr = 1.5 miss the 1 % gap after 100-300 iterations, none of 224 otherwise)
+        skip("liveness_not_judged_nondefault_asymptote_dynamics")
+        res["trace"].append("live:skip-asy")
+        margin("unjudged_gap_over_bound", gape / (0.01 * gap0))
+        return
     if not converged and (nit < need or travel < 2.0):
         skip("liveness_not_judged_budget_too_small")
         res["trace"].append("live:skip-budget")
